@@ -13,7 +13,7 @@ from props.service import *
 from props.C09 import CreateTopic
 from props.C16 import CreateSubscription
 
-OUTSIDE = ['linearizability itself (racing creates, create racing delete) is a statement about interleavings; decided: the sequential specification of each operation and that each runs under one lock hold',
+OUTSIDE = ['concurrent histories of more than three control-plane calls, or with data-plane calls inside the race (decided: the sequential specification of every operation, and C10.f: two or three racing create/delete/get calls on possibly equal names, interleaved at lock acquisitions, equal some sequential order)',
            '"every later request observes it" also rests on A1 and on the order of effects in SubscriptionActor::delete (C11.c)']
 ASSUMPTIONS = ['A4: parking_lot locks are mutual exclusion', 'name parsers abstracted in handler obligations (decided in C17.a / C18)']
 
